@@ -64,7 +64,7 @@ TEXT = {
               'identity (== of two non-nil pointers, uniq over pointers); == on struct and array values; conversion of an index '
               'to a map\'s key type outside the modelled cases; fmt of a pointer (an address), of a pointer to a pointer and of '
               'a map with keys of mixed dynamic type; a negative-zero literal; '
-              'case mapping outside the modelled table, some float edge cases (negative zero, overflow to Inf, float to int out '
+              'some float edge cases (negative zero, overflow to Inf, float to int out '
               'of range, math.Pow10). Time/space is measured on the implementation, not proved (the model has no cost semantics).'),
     "technique": ('Lean 4 proof (no-panic invariant by structural induction over the render tree and the value layer, about the '
               'panic sites the model spells out) + '
